@@ -344,4 +344,43 @@ theorem txBits_length (cfg : Config) (cw bits : List Bool) (ht : txBits cfg cw =
     | err => rw [show optPunct (some p) cw = puncture p cw from rfl, hq] at ht; cases ht
     | panic => rw [show optPunct (some p) cw = puncture p cw from rfl, hq] at ht; cases ht
 
+/-! ### block sizes that do not fit -/
+
+theorem psk8ModAll_none {α : Type} (S : Sc α) : ∀ (n : Nat) (bits : List Bool), bits.length = n → n % 3 ≠ 0 →
+    psk8ModAll S bits = none := by
+  intro n
+  induction n using Nat.strong_induction_on with
+  | _ n ih =>
+    intro bits hl h3
+    match bits, hl with
+    | [], hl => simp at hl; subst hl; simp at h3
+    | [_], _ => rfl
+    | [_, _], _ => rfl
+    | b0 :: b1 :: b2 :: rest, hl =>
+      simp only [psk8ModAll]
+      have hr : rest.length = n - 3 := by simp at hl; omega
+      have := ih (n - 3) (by simp at hl; omega) rest hr (by simp at hl; omega)
+      rw [this]; rfl
+
+/-- 8PSK with a frame whose length is not a multiple of 3: the modulator's assertion fires, nothing is demodulated -/
+theorem misfit_psk8 {α : Type} (S : Sc α) (cfg : Config) (sigma : α) (cw bits : List Bool) (hp : cfg.psk8 = true)
+    (ht : txBits cfg cw = .ok bits) (h3 : bits.length % 3 ≠ 0) : noiseless S cfg sigma cw = .panic := by
+  unfold noiseless
+  rw [ht]
+  simp only [Res.bind, airLlrs, hp, if_true]
+  rw [psk8ModAll_none S bits.length bits rfl h3]
+
+/-- an interleaver whose column count does not divide the (punctured) frame: the assertion of `interleave` fires -/
+theorem misfit_interleaver {α : Type} (S : Sc α) (cfg : Config) (sigma : α) (cw : List Bool) (c : Nat) (bw : Bool)
+    (hn : cfg.pattern = none) (hi : cfg.interleave = some (c, bw)) (hc : c = 0 ∨ cw.length % c ≠ 0) :
+    noiseless S cfg sigma cw = .panic := by
+  unfold noiseless txBits
+  simp only [hn, hi, Res.bind]
+  unfold Blocks.interleave
+  rcases hc with hc | hc
+  · simp [hc]
+  · by_cases h0 : c = 0
+    · simp [h0]
+    · simp [h0, hc]
+
 end LdpcV.Chain
